@@ -18,9 +18,16 @@ struct zstd_verif_ghost_s {
     unsigned long long xxh_bytes;         /* bytes fed to XXH64_update since the last XXH64_reset */
     const void* range_start;              /* a range returned by a callee that was replaced by its contract */
     size_t range_size;
+    size_t   cell_idx;                    /* ghost cell of a table-transforming loop: index chosen by the harness, */
+    unsigned cell_old, cell_new;          /* its value before the loop and the value the specification gives it   */
 };
 extern struct zstd_verif_ghost_s zstd_verif_ghost;
 #define ZSTD_VERIF_GHOST_FRAME __CPROVER_object_whole(&zstd_verif_ghost)
+/* "the ghost cell already has its new value iff the loop has passed it" — lets a loop contract carry a
+ * per-element postcondition without quantifiers (the harness quantifies by choosing cell_idx freely) */
+#define ZSTD_VERIF_GHOST_CELL_INV(table, size, done) \
+    (zstd_verif_ghost.cell_idx >= (size_t)(size) \
+     || (table)[zstd_verif_ghost.cell_idx] == (zstd_verif_ghost.cell_idx < (size_t)(done) ? zstd_verif_ghost.cell_new : zstd_verif_ghost.cell_old))
 #define ZSTD_VERIF_BITS_CONSUMED(n) \
     do { if ((n) > zstd_verif_ghost.bits_high) zstd_verif_ghost.bits_high = (n); } while (0)
 
